@@ -1,11 +1,13 @@
 import PyGqlModel.Json
 import PyGqlModel.AsyncExec
 import PyGqlModel.AsyncExecE2
+import PyGqlModel.AsyncExecLoop
 /-!
   Line-protocol operations of C08 / C09 (shared by `drv_C08` and `drv_C09`):
     {"op":"async","case":<op>,"schedule":[i…]}  → generic Executor under the schedule
     {"op":"blocking","case":<op>}                → BlockingExecutor
   `<op>` = {"kind":"query"|"mutation","fields":[{"key","mode","out"}…]} (see harness/corr/C08_world.py: to_model).
+    {"op":"async-loop","case":<op>,"schedule":[i…]} → the same with today's LOOP form of execute_fields_serially (AsyncExecLoop.lean)
     {"op":"e2-async","case":<e2>,"schedule":[i…]} / {"op":"e2-blocking","case":<e2>}   (AsyncExecE2.lean)
   `<e2>` = {"before":[field…],"key":…,"items":[comp…],"after":[field…]}: the list field `key` raises after `items`.
 -/
@@ -86,6 +88,9 @@ def handle (j : J) : J :=
   | "async" =>
     let sched := (j.arrD "schedule").map fun x => (x.asNat?).getD 0
     resultToJson (runAsync (opOfJson (j.getD "case")) sched)
+  | "async-loop" =>
+    let sched := (j.arrD "schedule").map fun x => (x.asNat?).getD 0
+    resultToJson (Loop.runAsync (opOfJson (j.getD "case")) sched)
   | "blocking" => resultToJson (runBlocking (opOfJson (j.getD "case")))
   | "e2-async" =>
     let sched := (j.arrD "schedule").map fun x => (x.asNat?).getD 0
